@@ -488,13 +488,14 @@ impl AddressLookupServices {
     ///
     /// If there is historical Address Lookup data, it will be published immediately on this service.
     pub fn add_boxed(&self, service: Box<dyn AddressLookup>) {
-        {
-            #[cfg(iroh_verif)]
-            crate::verif_hooks::pause::point("add:lock-last-read");
-            let data = self.last_data.read().expect("poisoned");
-            if let Some(data) = &*data {
-                service.publish(data)
-            }
+        // Hold the `last_data` lock until the service is registered: a concurrent
+        // `publish` then either runs before (and is seen here) or after (and sees
+        // the new service), so the service never misses the latest data.
+        #[cfg(iroh_verif)]
+        crate::verif_hooks::pause::point("add:lock-last-read");
+        let last_data = self.last_data.read().expect("poisoned");
+        if let Some(data) = &*last_data {
+            service.publish(data)
         }
         #[cfg(iroh_verif)]
         crate::verif_hooks::pause::point("add:lock-services-write");
@@ -523,6 +524,13 @@ impl AddressLookupServices {
             Some(filter) => data.apply_filter(filter),
             None => Cow::Borrowed(data),
         };
+        // Hold the `last_data` lock for the whole publish: concurrent publishes are
+        // serialized (all services end up with the same, latest data) and a concurrent
+        // `add_boxed` can not slip in between the loop and the store below.
+        // Lock order is `last_data`, then `services`, as in `add_boxed`.
+        #[cfg(iroh_verif)]
+        crate::verif_hooks::pause::point("publish:lock-last-write");
+        let mut last_data = self.last_data.write().expect("poisoned");
         #[cfg(iroh_verif)]
         crate::verif_hooks::pause::point("publish:lock-services-read");
         let services = self.services.read().expect("poisoned");
@@ -533,11 +541,8 @@ impl AddressLookupServices {
         }
 
         #[cfg(iroh_verif)]
-        crate::verif_hooks::pause::point("publish:lock-last-write");
-        self.last_data
-            .write()
-            .expect("poisoned")
-            .replace(data.into_owned());
+        crate::verif_hooks::pause::point("publish:store");
+        last_data.replace(data.into_owned());
     }
 
     /// Resolves the addressing information for an [`EndpointId`] across all configured services.
